@@ -202,6 +202,15 @@ def Header.display (h : Header) : B :=
     [0x20, 0x30, 0x78] ++ hexUpper (afpByte h.addressFamily h.protocol).toNat ++
     [0x20, 0x28] ++ decDigits h.length ++ [0x20, 0x62, 0x79, 0x74, 0x65, 0x73, 0x29]
 
+/-- Panic-aware `impl Display for Header`: the formatter calls `self.length()`, i.e. the
+partial slice `self.header[MINIMUM_LENGTH..]` (`src/v2/model.rs:141-151`); everything else
+in it (`{:?}` of the prefix, `{:#X}` of two bytes, `{}` of a `usize`) is total. -/
+def Header.displayP (h : Header) : Outcome B := do
+  let n ← h.lengthP
+  pure (sigDebug ++ [0x20, 0x30, 0x78] ++ hexUpper (vcByte h.version h.command).toNat ++
+    [0x20, 0x30, 0x78] ++ hexUpper (afpByte h.addressFamily h.protocol).toNat ++
+    [0x20, 0x28] ++ decDigits n ++ [0x20, 0x62, 0x79, 0x74, 0x65, 0x73, 0x29])
+
 /-- Registered TLV types (`Type` in the crate). -/
 inductive TlvType where
   | alpn | authority | crc32c | noOp | uniqueId
